@@ -124,7 +124,7 @@ def outputs_of(r):
 def oracle_input(ctx, rng, n):
     import dassh
     for ci in range(n):
-        kind = ["core-tol", "planes", "plain", "fuel", "pin", "dump", "hotspot"][ci % 7]
+        kind = ["core-tol", "tables", "planes", "plain", "fuel", "pin", "dump", "hotspot"][ci % 8]
         case = make_case(rng, kind)
         d = str(ctx.work / ("r%d" % ci))
         path = gi.write_case(case, d)
@@ -177,6 +177,22 @@ def oracle_input(ctx, rng, n):
             ctx.violation("c16-run-after-sweep-differs:" + kind, "a Reactor built from the same input object AFTER a sweep gives different "
                           "temperatures than the first one (max %.3g K): the sweep left state in the input object" % dev,
                           case=case, kind=kind)
+        # the whole life of a time point - construction, sweep WITH output, post-processing (tables, hot spots) - must leave the
+        # parsed input as it was: that is the hypothesis of c16_serial_eq_parallel
+        try:
+            inp5 = dassh.DASSH_Input(path)
+            before5 = fp(inp5.data)
+            r5 = dassh.Reactor(inp5, path=d, write_output=True)
+            r5.temperature_sweep()
+            r5.postprocess()
+            changed5 = diff_fp(before5, fp(inp5.data))
+            ctx.count("full_time_point_fingerprints")
+            if changed5:
+                ctx.violation("c16-input-mutated-by-run:" + changed5[0].split(" ")[0].lstrip("."),
+                              "a complete time point (construction, sweep, post-processing) modified the parsed input (%s input): %s"
+                              % (kind, "; ".join(changed5[:6])), case=case, kind=kind, changed=changed5[:20])
+        except SystemExit:
+            ctx.count("full_time_point_stopped_by_dassh:" + kind)
         # fresh execution
         inp3 = dassh.DASSH_Input(path)
         r3 = dassh.Reactor(inp3, path=d, write_output=False)
@@ -282,7 +298,7 @@ def run(ctx):
     ctx.rule = ("inputs: plain / requested planes + regions + grids / FuelModel / PinModel / dump request / hot-spot request; per input: fingerprint before/after "
                 "Reactor(...), second construction, fresh execution; dassh main with 2-3 time points serial vs parallel vs alone")
     ctx.prove("Dassh.Props.C16")
-    oracle_input(ctx, rng, 21 if ctx.thorough else 7)
+    oracle_input(ctx, rng, 24 if ctx.thorough else 8)
     oracle_main(ctx, rng, 6 if ctx.thorough else 2)
     ctx.nontrivial = ctx.evals
     ctx.traces = ctx.evals
